@@ -44,6 +44,11 @@ theorem step_once {c : Cfg} {σ σ' : RunSt} {g : Ghost} (hi : FInv c σ g) (hcr
     subst hs
     refine ⟨hm, ?_⟩
     simp only [gstep]; split <;> exact hn
+  | produceCancelled _ =>
+    simp only [opStep, Option.some.injEq] at hs
+    subst hs
+    refine ⟨hm, ?_⟩
+    simp only [gstep]; split <;> exact hn
   | reapPutFails =>
     simp only [opStep, Option.some.injEq] at hs
     subst hs
